@@ -15,8 +15,10 @@ CONSTANTS TraceFile,     \* path of the NDJSON trace
 
 TraceLog == ndJsonDeserialize(TraceFile)
 
-VARIABLE l
-TInit == l = 1
+VARIABLES l,        \* position in the trace
+          memo      \* C19: first result seen per operation key (history variable of the trace: results are
+                    \* functions of their arguments, so every later result for the same key must equal it)
+TInit == l = 1 /\ memo = [k \in {} |-> ""]
 
 MaxReport == 40          \* mismatch lines printed per event (the count is always printed)
 
@@ -324,8 +326,30 @@ Judge(ev) ==
     [] ev.k = "matrix" -> MatrixRef(ev)
     [] OTHER -> {[prop |-> Prop, why |-> "unjudged event kind", k |-> ev.k, known |-> ""]}
 
+(* C19: every logged call result equals the first result ever seen for the same operation and     *)
+(* arguments - within a goroutine run, across goroutines, across call orders and across processes - *)
+(* and the deep snapshot of the shared values is the same before and after.                          *)
+ConcC19(ev, m) ==
+  LET R    == ev.results
+      keys == {R[i].key : i \in 1..Len(R)}
+      resOf == TLCEval([k \in keys |-> {R[i].res : i \in {i \in 1..Len(R) : R[i].key = k}}])
+      badk == {k \in keys : Cardinality(resOf[k]) > 1 \/ (k \in DOMAIN m /\ m[k] \notin resOf[k])}
+      rec(why, k, got, want) == [prop |-> "C19", eco |-> ev.eco, phase |-> ev.phase, why |-> why, key |-> k, got |-> got, want |-> want, known |-> ""] IN
+  [ mm   |-> {rec("result depends on schedule or history", k, resOf[k], IF k \in DOMAIN m THEN {m[k]} ELSE {}) : k \in badk}
+             \cup (IF ev.snapafter # ev.snapbefore THEN {rec("a shared value was modified by an observer", "", {}, {})} ELSE {})
+             \cup {rec("panic: " \o ev.panics[i], "", {}, {}) : i \in 1..Len(ev.panics)}
+             \cup {rec("a call panicked", k, resOf[k], {}) : k \in {k \in keys : \E r \in resOf[k] : r = "PANIC"}},
+    memo |-> [k \in DOMAIN m \cup keys |-> IF k \in DOMAIN m THEN m[k] ELSE CHOOSE r \in resOf[k] : TRUE] ]
+
+(* a data race reported by the Go race detector (a sensor outside the model): not a transition *)
+RaceC19(ev) == {[prop |-> "C19", eco |-> "", phase |-> "race-detector", why |-> "data race reported", key |-> ev.report, got |-> {}, want |-> {}, known |-> ""]}
+
 TNext == /\ l <= Len(TraceLog)
-         /\ Report(Judge(TraceLog[l]))
+         /\ LET ev == TraceLog[l] IN
+            IF ev.k = "conc" /\ Prop = "C19"
+            THEN LET c == ConcC19(ev, memo) IN Report(c.mm) /\ memo' = c.memo
+            ELSE IF ev.k = "race" /\ Prop = "C19" THEN Report(RaceC19(ev)) /\ memo' = memo
+            ELSE Report(Judge(ev)) /\ memo' = memo
          /\ l' = l + 1
 
 TraceAccepted == TLCGet("stats").diameter - 1 = Len(TraceLog)
